@@ -358,8 +358,8 @@ func ValidateKnown(name pr.KnownProp, tokens []Token, baseUrl string) (out pr.De
 	return value, err
 }
 
-func Validate(key pr.PropKey, tokens []Token) (pr.DeclaredValue, error) {
-	out, err := validateNonShorthand("", key.String(), tokens, false)
+func Validate(key pr.PropKey, tokens []Token, baseUrl string) (pr.DeclaredValue, error) {
+	out, err := validateNonShorthand(baseUrl, key.String(), tokens, false)
 	return out.property, err
 }
 
